@@ -56,6 +56,7 @@ func init() {
 		ruleORD14(w, r)   // a write acknowledged after Close would be in no log
 		ruleCDC15(w, r)   // a link acknowledged during a snapshot is applied once, not twice
 		ruleTBLwire(w, r) // what a snapshot or the log holds is read back under the names it was written with
+		ruleGRDwriteback(w, r)
 	})
 }
 
@@ -97,6 +98,7 @@ func init() {
 		ruleGRDshardhash(w, r) // a data directory written by another build is read back whole: the node placement function is part of the snapshot format
 		ruleTBLwire(w, r)      // … and so are the field names gob and json match by
 		ruleCDC15c(w, r)
+		ruleGRDwriteback(w, r) // a record merged into the copy of a replay entry is stored back
 	})
 }
 
@@ -119,6 +121,7 @@ func init() {
 		ruleLCK10(w, r)             // search returns only live ids
 		ruleGRDverbatimHybrid(w, r) // the filter of a hybrid query is evaluated as written
 		ruleTBLwire(w, r)           // a tombstone written by an earlier build is still a tombstone: the names in the snapshot format stay
+		ruleGRDzerocapture(w, r)    // the graph scope's depth limit reads the node being expanded
 	})
 }
 
@@ -137,6 +140,7 @@ func init() {
 		ruleCDC13(w, r)             // filters select the same vectors after a restart, also for adds that raced a snapshot
 		ruleGRDverbatimHybrid(w, r) // quoted values reach the evaluator byte for byte
 		ruleGRDreindex(w, r)        // the index entries of a value the node no longer has are removed
+		ruleGRDnewid(w, r)
 	})
 }
 
@@ -153,6 +157,7 @@ func init() {
 		ruleGRDrevAppend(w, r) // the two views agree at every instant
 		ruleGRDshardhash(w, r) // a snapshot written by another build shows the same edges: the node placement function is part of the format
 		ruleCDC15c(w, r)       // replayed link/unlink records keep distinct identities
+		ruleLCK1graph(w, r)    // an edge operation that keeps a shard locked ends every later query of that shard
 	})
 	register("C11", "graph queries compute exact bounded reachability and shortest paths", func(w *World, r *Report) {
 		ruleGRDbfs(w, r, []bfsSpec{{"pkg/engine", "Engine.resolveGraphFilter", 5}, {"pkg/engine", "Engine.VExtractSubgraph", 5}, {"pkg/engine", "Engine.FindPath", 0}}, "GRD-bfs")
@@ -163,6 +168,7 @@ func init() {
 		ruleGRDreslice(w, r)       // the next frontier never shares its backing array with the frontier being expanded
 		ruleGRDpathExhausted(w, r) // every traversal terminates: the rounds end with the frontiers
 		ruleGRDrevAppend(w, r)     // as-of queries through the incoming view see the edge from its first link on
+		ruleGRDzerocapture(w, r)   // traversal depth is computed from the expanded node, not from a never-assigned variable
 	})
 	register("C12", "deleting a node leaves no live edge to or from it", func(w *World, r *Report) {
 		ruleSIB4(w, r)
@@ -171,6 +177,7 @@ func init() {
 		ruleGRDcascadeAll(w, r) // every edge of the deleted node is unlinked, whatever its other end is
 		ruleLCK7emit(w, r)      // a panic in the delete's event emission would skip the cascade
 		ruleCDC15c(w, r)        // a second deletion of a re-added id is repaired like the first: replay dates its repairs per record
+		ruleORD9(w, r)          // the cascade runs inside the operation gate: no snapshot cuts between a delete and its unlinks
 	})
 }
 
@@ -198,6 +205,7 @@ func init() {
 		ruleORD9(w, r)             // lost updates: a snapshot does not miss an operation that is between journal and apply
 		ruleLCKcopy(w, r)          // a lock that is copied excludes nobody
 		ruleGRDrmwCallers(w, r)    // a lost update one layer up: no handler pre-merges with a stale read
+		ruleLCKdeferloop(w, r)     // a lock taken per iteration is released per iteration
 	})
 }
 
@@ -223,6 +231,8 @@ func init() {
 		ruleGRDdimension(w, r)     // delete everything, add a vector of another dimension: refused, not cut
 		ruleGRDchancap(w, r)       // get-many returns for any number of ids
 		ruleGRDcommaok(w, r)       // a key set to the empty value is a key
+		ruleGRDnewid(w, r)         // compression keeps every record's metadata with its record
+		ruleGRDdimcheck(w, r)
 	})
 }
 
@@ -289,6 +299,7 @@ func init() {
 		ruleGRDdimension(w, r) // the wrong-dimension guard cannot be switched off by deleting one vector
 		ruleGRDlevelmult(w, r) // m = 1 in a create request must not wedge the index
 		ruleLCK7emit(w, r)     // an event fan-out that can send on a closed channel panics inside the request that emitted
+		ruleGRDpath(w, r)      // a relation path in a request cannot drive the traversal deeper than its constant cap
 	})
 }
 
@@ -311,6 +322,7 @@ func init() {
 		ruleLCK5f(w, r, lr, func(g string) bool {
 			return strings.HasPrefix(g, "mmap.VectorArena.") || strings.HasPrefix(g, "distance.Quantizer.") || g == "hnsw.Index.activeMu"
 		})
+		ruleGRDdimcheck(w, r)        // a vector read back is the vector stored: the index refuses another dimension itself
 		ruleGRDqueryscale(w, r)      // int8 distances: the query keeps its resolution
 		ruleGRDtrainedEnsure(w, r)   // the 'is it trained' question is asked of the current quantizer on every call
 		ruleGRDquerynorm(w, r)       // an int8 cosine query is quantised in the range trained on unit-length vectors
@@ -329,6 +341,7 @@ func init() {
 		ruleGRDclockid(w, r)   // two answers cached in the same second must get different ids
 		ruleGRDmatchdist(w, r) // an identical prompt (similarity rounding above 1) is still the closest match
 		ruleGRDinvalAll(w, r)  // an invalidated source is gone from the cache, whatever the cap
+		ruleGRDownarg(w, r)    // the embedding the gateway computed once is still the same vector after the firewall look-up used it
 	})
 }
 
@@ -368,5 +381,6 @@ func init() {
 		ruleGRDnoQueryShortcut(w, r)  // a stored vector is retrieved by its own value, also the zero vector
 		ruleGRDtrainedEnsure(w, r)    // a quantized index searches on trained codes: training is retried until it has succeeded
 		ruleGRDqueryscale(w, r)       // an int8 index answers like the float index it approximates, whatever the magnitude of the data
+		ruleGRDfrozenset(w, r)        // a vacuum leaves no live node linking to a node it freed
 	})
 }
